@@ -129,6 +129,11 @@ class SimClock:
     def set(self, d: _dt.date):
         self.today = d
 
+    def __deepcopy__(self, memo):
+        # a clock is an outside resource: the copy of a converter asks the
+        # same clock
+        return self
+
     def arm(self, nth: int, d: _dt.date):
         self.armed_at = self.reads
         self.script = {nth: d}
